@@ -37,6 +37,20 @@ def rule_pred(run, floor=10, only=None):
              'block-existence relation `surface > bottom` (the one block_name_list uses) or its exact negation', floor=floor)
     sites = pred_sites(run.prog)
     seen = {}
+    # the same functions comparing the surface with another elevation of the layer (its centre, its top): the count of layers /
+    # the existence of a block is decided by the layer *bottom* (block_name_list), so such a site disagrees with it for a surface
+    # between the two elevations
+    for fi in run.prog.all_functions(['mulgrids', 't2grids', 't2incons', 't2data']):
+        if not only or fi.short not in only: continue
+        for n in ast.walk(fi.node):
+            if not (isinstance(n, ast.Compare) and len(n.ops) == 1): continue
+            a, b = n.left, n.comparators[0]
+            for x, y in ((a, b), (b, a)):
+                if isinstance(x, ast.Attribute) and x.attr == 'surface' and isinstance(y, ast.Attribute) and y.attr in ('centre', 'top') and \
+                   isinstance(y.value, ast.Name) and 'layer' in y.value.id.lower() and isinstance(n.ops[0], (ast.Lt, ast.LtE, ast.Gt, ast.GtE)):
+                    run.violated('%s :: %s' % (fi.short, norm(n)), 'the surface is compared with the layer %s; whether a column has a block in a layer '
+                                 'is decided by the layer bottom (`surface > bottom`, as block_name_list does), so a surface between the two '
+                                 'elevations is counted differently here' % y.attr, where=fi.where(n))
     for fi, n, l, op, r, verdict in sites:
         if only and fi.short not in only: continue
         k = '%s :: %s %s %s' % (fi.short, l, op, r)
